@@ -71,7 +71,7 @@ func parseDgram(w written) dgram {
 }
 
 func sameUDP(a, b *net.UDPAddr) bool {
-	return a != nil && b != nil && a.IP.Equal(b.IP) && a.Port == b.Port
+	return a != nil && b != nil && a.IP.Equal(b.IP) && a.Port == b.Port && a.Zone == b.Zone
 }
 
 func nodeInfo(id [20]byte, a *net.UDPAddr) krpc.NodeInfo {
